@@ -4,6 +4,7 @@ import (
 	"bytes"
 	"context"
 	"fmt"
+	"sort"
 	"strings"
 
 	wire "github.com/jeroenrinzema/psql-wire"
@@ -193,7 +194,75 @@ func (ch c08) Run(c *core.Ctx) {
 		if i%4 == 0 {
 			ch.multiBind(c, env, rng)
 		}
+		if i%3 == 1 {
+			ch.interrupted(c, env, rng, c08gen(rng, false))
+		}
 	}
+}
+
+// interrupted delivers a Bind in pieces with a temporary (timeout) read error between them - what a
+// listener with rolling read deadlines produces. The server may give the connection up at the first
+// error or resume the read; a statement function that runs all the same receives exactly the
+// parameters sent.
+func (ch c08) interrupted(c *core.Ctx, env *hs.Env, rng *core.Rng, k c08case) {
+	if k.OddCodes {
+		return
+	}
+	st := &hs.Stmt{ID: "s", Params: []oid.Oid{}, Ops: []hs.Op{{K: "complete", Tag: "OK"}}}
+	for _, o := range k.POIDs {
+		st.Params = append(st.Params, oid.Oid(o))
+	}
+	sess := &hs.Sess{Progs: map[string]*hs.Prog{"q": {Stmts: []*hs.Stmt{st}}}}
+	cl := hs.NewClient(env.Dial(sess))
+	if err := cl.StartupOK("u"); err != nil {
+		c.Violate("startup", "startup failed", err.Error(), nil)
+		return
+	}
+	in := pg.Parse("st", "q", nil)
+	bind := pg.Bind("po", "st", k.PFmts, k.PRaw, nil)
+	var cuts []int
+	for n := 1 + rng.Intn(3); n > 0 && len(bind) > 8; n-- {
+		cuts = append(cuts, len(in)+1+rng.Intn(len(bind)-1))
+	}
+	sort.Ints(cuts)
+	in = append(in, bind...)
+	// the Execute is sent twice: bytes a resumed read takes too many are missing from the first
+	in = append(append(append(in, pg.Execute("po", 0)...), pg.Execute("po", 0)...), pg.Sync()...)
+	cl.C.SendCutTemp(in, cuts)
+	cl.C.Quiesce()
+	cs := map[string]any{"case": k.sig(), "temporary_errors_at": fmt.Sprint(cuts)}
+	if hangCheck(c, cl, cs) {
+		return
+	}
+	defer cl.Finish()
+	c.Count("interrupted_binds", 1)
+	for _, e := range cl.C.Events() {
+		if e.Kind != "cb" || e.Name != "exec" {
+			continue
+		}
+		rec := e.Data.(hs.ExecRec)
+		c.Count("executes_after_interrupted_bind", 1)
+		bad := ""
+		if len(rec.Params) != len(k.PRaw) {
+			bad = fmt.Sprintf("handler saw %d parameters, Bind sent %d", len(rec.Params), len(k.PRaw))
+		} else {
+			for i, sent := range k.PRaw {
+				switch {
+				case (sent == nil) != (rec.Params[i] == nil):
+					bad = fmt.Sprintf("parameter %d: NULL and value confused", i)
+				case string(sent) != string(rec.Params[i]):
+					bad = fmt.Sprintf("parameter %d: got %s want %s", i, hexs(rec.Params[i]), hexs(sent))
+				case rec.Formats[i] != fmtFor(k.PFmts, i):
+					bad = fmt.Sprintf("parameter %d tagged %d want %d", i, rec.Formats[i], fmtFor(k.PFmts, i))
+				}
+			}
+		}
+		if bad != "" {
+			c.Violate("interrupted", "after temporary read errors inside the Bind the statement function received other parameters", fmt.Sprintf("case %s, temporary errors at stream offsets %v: %s", trim(k.sig(), 300), cuts, bad), cs)
+			return
+		}
+	}
+	c.Eval(fmt.Sprintf("interrupted %d %s", len(cuts), k.sig()), true)
 }
 
 // multiBind binds several portals (different parameters, parameter formats and result
